@@ -357,7 +357,7 @@ func genHistory(c *ctx, prof histProfile, ndsRequired bool) {
 		uni[rt] = all
 	}
 	c.count("histories", 1)
-	c.emit(obj{"op": "hist", "cfg": obj{"nds": ndsRequired, "ns": "default", "dom": "cluster.local"}, "universe": uni,
+	h.emitHist(c, obj{"op": "hist", "cfg": obj{"nds": ndsRequired, "ns": "default", "dom": "cluster.local"}, "universe": uni,
 		"pre": pre, "obs0": obs0, "steps": h.steps})
 }
 
@@ -400,7 +400,7 @@ func stopFlood(c *ctx, misses int) {
 		"obs": obj{"hang": hang, "returned": returned, "final": final}})
 	uni := obj{"lds": []string{xdsresource.ReservedLdsResourceName}, "rds": []string{}, "cds": []string{"c1", "c3"}, "eds": []string{}}
 	c.count("stop-flood", 1)
-	c.emit(obj{"op": "hist", "cfg": obj{"nds": false, "ns": "default", "dom": "cluster.local"}, "universe": uni,
+	h.emitHist(c, obj{"op": "hist", "cfg": obj{"nds": false, "ns": "default", "dom": "cluster.local"}, "universe": uni,
 		"pre": pre, "obs0": obs0, "steps": h.steps})
 }
 
@@ -451,7 +451,7 @@ func stalledBurst(c *ctx, n int) {
 	})
 	uni := obj{"lds": []string{xdsresource.ReservedLdsResourceName}, "rds": []string{}, "cds": []string{}, "eds": []string{}}
 	c.count("stalled-burst", 1)
-	c.emit(obj{"op": "hist", "cfg": obj{"nds": false, "ns": "default", "dom": "cluster.local"}, "universe": uni,
+	h.emitHist(c, obj{"op": "hist", "cfg": obj{"nds": false, "ns": "default", "dom": "cluster.local"}, "universe": uni,
 		"pre": pre, "obs0": obs0, "steps": h.steps})
 }
 
@@ -539,7 +539,7 @@ func stalledAck2(c *ctx, n int, bad, second bool) {
 	})
 	uni := obj{"lds": []string{xdsresource.ReservedLdsResourceName}, "rds": []string{}, "cds": []string{}, "eds": []string{"e1"}}
 	c.count("stalled-ack", 1)
-	c.emit(obj{"op": "hist", "cfg": obj{"nds": false, "ns": "default", "dom": "cluster.local"}, "universe": uni,
+	h.emitHist(c, obj{"op": "hist", "cfg": obj{"nds": false, "ns": "default", "dom": "cluster.local"}, "universe": uni,
 		"pre": pre, "obs0": obs0, "steps": h.steps})
 }
 
@@ -594,7 +594,7 @@ func stalledReconnect(c *ctx, k int) {
 	})
 	uni := obj{"lds": []string{xdsresource.ReservedLdsResourceName}, "rds": []string{}, "cds": []string{"c1"}, "eds": []string{}}
 	c.count("stalled-reconnect", 1)
-	c.emit(obj{"op": "hist", "cfg": obj{"nds": false, "ns": "default", "dom": "cluster.local"}, "universe": uni,
+	h.emitHist(c, obj{"op": "hist", "cfg": obj{"nds": false, "ns": "default", "dom": "cluster.local"}, "universe": uni,
 		"pre": pre, "obs0": obs0, "steps": h.steps})
 }
 
@@ -648,7 +648,7 @@ func doubleFailure(c *ctx) {
 	})
 	uni := obj{"lds": []string{xdsresource.ReservedLdsResourceName}, "rds": []string{}, "cds": []string{"c1"}, "eds": []string{}}
 	c.count("double-failure", 1)
-	c.emit(obj{"op": "hist", "cfg": obj{"nds": false, "ns": "default", "dom": "cluster.local"}, "universe": uni,
+	h.emitHist(c, obj{"op": "hist", "cfg": obj{"nds": false, "ns": "default", "dom": "cluster.local"}, "universe": uni,
 		"pre": pre, "obs0": obs0, "steps": h.steps})
 }
 
@@ -734,7 +734,7 @@ func outage(c *ctx, budgets, burst int) {
 	}
 	uni := obj{"lds": []string{xdsresource.ReservedLdsResourceName}, "rds": []string{}, "cds": []string{}, "eds": []string{"e1"}}
 	c.count("outage", 1)
-	c.emit(obj{"op": "hist", "cfg": obj{"nds": false, "ns": "default", "dom": "cluster.local"}, "universe": uni,
+	h.emitHist(c, obj{"op": "hist", "cfg": obj{"nds": false, "ns": "default", "dom": "cluster.local"}, "universe": uni,
 		"pre": pre, "obs0": obs0, "steps": h.steps})
 }
 
@@ -791,4 +791,16 @@ func init() {
 		outage(c, 1, 1040)
 		runHistories(c, histProfile{steps: 30, pFault: 22, pEvict: 4, pBad: 15, pUnsolicited: 10, pGet: 35, authStop: true, createFail: c.thorough(), sendFail: true}, 50*c.budget)
 	}
+}
+
+// emitHist emits a history unless its world has lived for so long that the REAL cleaner (a 30 s ticker from the manager's
+// creation; it removes what has been idle for more than 30 s, so not before the world is 60 s old) may have run inside
+// it: histories take well under a second, an older world means the process was starved, and what the real cleaner did
+// then is not part of the script. (The sweep worlds of C19 wait for real ticks on purpose and do not come through here.)
+func (h *histRun) emitHist(c *ctx, o obj) {
+	if age := time.Since(h.w.created); age > 45*time.Second {
+		c.count("discarded.world-older-than-45s", 1)
+		return
+	}
+	c.emit(o)
 }
